@@ -1,4 +1,9 @@
 import TsV.Model.Lang.TypeScript
+import TsV.Model.Lang.Kotlin
+import TsV.Model.Lang.Swift
+import TsV.Model.Lang.Scala
+import TsV.Model.Lang.Go
+import TsV.Model.Lang.Python
 /-!
 # The in-process pipeline of one run (what `cli/src/main.rs::generate_types` does between the
 directory walk and the file system), for every back end.
@@ -8,12 +13,17 @@ open TsV TsV.Syn
 
 inductive LangCfg where
   | typescript (c : Lang.TypeScript.Cfg)
-  | unmodelled (name : Str)
+  | kotlin (c : Lang.Kotlin.Cfg)
+  | swift (c : Lang.Swift.Cfg)
+  | scala (c : Lang.Scala.Cfg)
+  | go (c : Lang.Go.Cfg)
+  | python (c : Lang.Python.Cfg)
 
 /-- `Language::ignored_reference_types` -/
 def ignoredTypes : LangCfg → List Str
   | .typescript c => c.typeMappings.map (·.1)
-  | .unmodelled _ => []
+  | .kotlin c => c.typeMappings.map (·.1)
+  | _ => []
 
 structure SourceFile where
   crateName : Str
@@ -39,6 +49,15 @@ def parseAll (E : Ext) (ctx : ParseContext) (pick : List ImportedType → Option
 def firstOther (all : List (Str × List Str)) (current : Str) (name : Str) : Option Str :=
   (all.find? fun (c, names) => c != current && names.contains name).map (·.1)
 
+/-- hash-order dependent inputs of a multi-file run (excluded from byte-exact comparison) -/
+def ambiguities (E : Ext) (lang : LangCfg) (targetOs : List Str) (files : List SourceFile) : List Str :=
+  let ctx : ParseContext := { ignoredTypes := ignoredTypes lang, multiFile := true, targetOs }
+  files.flatMap fun f =>
+    if !f.file.marker then [] else
+    match Visitor.visitFile E ctx f.crateName f.fileName f.path f.file with
+    | .ok d => Visitor.ambiguousImports d
+    | _ => []
+
 def run (E : Ext) (lang : LangCfg) (multiFile : Bool) (targetOs : List Str)
     (pick : List ImportedType → Option ImportedType) (files : List SourceFile) : Outcome RunResult :=
   let ctx : ParseContext := { ignoredTypes := ignoredTypes lang, multiFile, targetOs }
@@ -52,8 +71,12 @@ def run (E : Ext) (lang : LangCfg) (multiFile : Bool) (targetOs : List Str)
         (c, d, if multiFile then
             some (Pipeline.usedImports d all d.importTypes (firstOther all d.crateName))
           else none)
-      match lang with
-      | .typescript cfg => (Lang.TypeScript.generateAll E.U cfg jobs []).bind fun o => .ok (.outputs o)
-      | .unmodelled _ => .err (.formatError s%"unmodelled-language")
+      (match lang with
+      | .typescript cfg => Lang.TypeScript.generateAll E cfg multiFile jobs
+      | .kotlin cfg => Lang.Kotlin.generateAll E cfg multiFile jobs
+      | .swift cfg => Lang.Swift.generateAll E cfg multiFile jobs
+      | .scala cfg => Lang.Scala.generateAll E cfg multiFile jobs
+      | .go cfg => Lang.Go.generateAll E cfg multiFile jobs
+      | .python cfg => Lang.Python.generateAll E cfg multiFile jobs).bind fun o => .ok (.outputs o)
 
 end TsV.Generate
